@@ -423,6 +423,18 @@ func cmpNearMiss(fn string, atoms []string, res []*regexp.Regexp, sites []cmpSit
 				}
 				return !still
 			})
+			// spec constants are written spec.X / epc.Spec.X and appear as the bare atom X: the field still being
+			// selected anywhere in the package means it was not renamed
+			if !still && leaf == strings.ToUpper(leaf) {
+				for _, f := range d.pk.Syntax {
+					ast.Inspect(f, func(n ast.Node) bool {
+						if se, ok := n.(*ast.SelectorExpr); ok && se.Sel.Name == leaf {
+							still = true
+						}
+						return !still
+					})
+				}
+			}
 		} else {
 			for _, f := range d.pk.Syntax {
 				ast.Inspect(f, func(n ast.Node) bool {
